@@ -5,6 +5,8 @@ package req
 import (
 	"bufio"
 	"bytes"
+	"compress/flate"
+	"compress/gzip"
 	"crypto/tls"
 	"io"
 	"math/rand"
@@ -20,7 +22,9 @@ import (
 	"time"
 	"unsafe"
 
+	"github.com/andybalholm/brotli"
 	"github.com/imroc/req/v3/internal/http3"
+	"github.com/klauspost/compress/zstd"
 	"github.com/quic-go/quic-go"
 	qhttp3 "github.com/quic-go/quic-go/http3"
 	xhttp2 "golang.org/x/net/http2"
@@ -179,6 +183,7 @@ func c17SortedKeys(m map[string][]string) []string {
 // c17Seen is what one request looked like at the origin, before any parsing.
 type c17Seen struct {
 	Path    string
+	Query   string // raw query (lanes tag their requests with an id to recognise stale ones)
 	Status  int // what the origin answered
 	Method  string
 	Proto   string
@@ -205,6 +210,11 @@ func (o *c17Origin) handler(w http.ResponseWriter, r *http.Request) {
 		b := o.dl[r.URL.Query().Get("id")]
 		chunked := r.URL.Query().Get("chunked") == "1"
 		o.mu.Unlock()
+		if enc := r.URL.Query().Get("enc"); enc != "" {
+			// the body goes out compressed: what is on the wire is c17Encode(enc, b)
+			b = c17Encode(enc, b)
+			w.Header().Set("Content-Encoding", enc)
+		}
 		if chunked {
 			fl, _ := w.(http.Flusher)
 			for len(b) > 0 {
@@ -253,10 +263,31 @@ func (o *c17Origin) handler(w http.ResponseWriter, r *http.Request) {
 		w.Header().Set("Location", "/final?"+r.URL.RawQuery)
 	}
 	o.mu.Lock()
-	o.seen = append(o.seen, c17Seen{Path: r.URL.Path, Status: status, Method: r.Method, Proto: r.Proto, Header: r.Header.Clone(), CL: r.ContentLength,
+	o.seen = append(o.seen, c17Seen{Path: r.URL.Path, Query: r.URL.RawQuery, Status: status, Method: r.Method, Proto: r.Proto, Header: r.Header.Clone(), CL: r.ContentLength,
 		TE: append([]string(nil), r.TransferEncoding...), Body: body, BodyErr: err})
 	o.mu.Unlock()
 	w.WriteHeader(status)
+}
+
+// c17Encode compresses b with a Content-Encoding the client can undo.
+func c17Encode(enc string, b []byte) []byte {
+	var buf bytes.Buffer
+	var w io.WriteCloser
+	switch enc {
+	case "gzip":
+		w = gzip.NewWriter(&buf)
+	case "deflate":
+		w, _ = flate.NewWriter(&buf, flate.DefaultCompression)
+	case "br":
+		w = brotli.NewWriter(&buf)
+	case "zstd":
+		w, _ = zstd.NewWriter(&buf)
+	default:
+		return b
+	}
+	w.Write(b)
+	w.Close()
+	return buf.Bytes()
 }
 
 func c17Itoa64(n int64) string {
